@@ -97,8 +97,10 @@ def cases(draw, isa, archs):
     # optional second store directly after the first (no address register changes in between)
     sel = draw(st.integers(0, 5))
     if sel == 0 and store["mode"] == "plain":
-        lines.append(dict(store, k="store", text=("movq %r11, " if isa == "x86" else "str x11, ") +
-                          render_addr(isa, store)))
+        # (x86: the later store to the identical operand may itself be a read-modify-write instruction)
+        k2 = draw(st.sampled_from(["mov", "addimm", "inc"])) if isa == "x86" else "str"
+        t2 = {"mov": "movq %r11, ", "addimm": "addq $1, ", "inc": "incq ", "str": "str x11, "}[k2]
+        lines.append(dict(store, k="store", text=t2 + render_addr(isa, store), st_kind=k2))
     elif sel == 1:
         if isa == "aarch64" and store["index"]:
             # register-indexed AArch64 operands have no displacement: another base makes it another operand
